@@ -58,6 +58,24 @@ CLAIMS = {
         note=LEAN_NOTE + "futures are dropped between polls only",
         technique="Lean 4 proof (stateless-future lemmas, REQ marker invariant) + exhaustive cancellation-point correspondence",
     ),
+    "C11": dict(
+        engine="world",
+        text="Lean 4: refinement of the code's subscription LIST to the Spec's MULTISET (abs (onMsg s m) = Spec.onMsg (abs s) m for every message: subscribe, unsubscribe, garbage, empty, multi-frame; lifted to whole histories), the delivery decision stated outright (copy written iff a topic with positive count is a byte-prefix of the first frame), at most one copy, empty subscription matches all, garbage is a no-op. Tie: real PUB (reader tasks drained) and XPUB (subscriptions consumed by recv) with scripted subscribers; ALL histories to length 3/4 over 8 sub/unsub ops + 3 kinds of garbage x 5 published first frames, sampled longer ones, 2..3 subscribers; independent python multiset-prefix oracle; XPUB hands over subscription messages verbatim in per-peer order.",
+        note=LEAN_NOTE + "PUB's reader tasks observed at quiescent points; tokio current-thread scheduling",
+        technique="Lean 4 proof (refinement list -> multiset, decision logic stated outright) + exhaustive short-history correspondence",
+    ),
+    "C12": dict(
+        engine="world",
+        text="Lean 4 on the sink model (FramedWrite2 buffer + high-water mark + try_send over a credit pipe): stream continuity (wire ++ buffer grows by the WHOLE encoding iff accepted, by nothing iff dropped — for every pipe state), buffer bound < hwm + one message, no loss with unlimited credit, resume continues where it stopped, BufferFull drops whole, publishing to one subscriber touches no other pipe. PARTIAL: FramedWrite2 is modelled, not verified; try_send cannot wait by construction in the model — that the real send completes in ONE poll is checked on the code. Tie: PUB/XPUB with 1..3 subscribers, exhaustive stall points x sizes around 128 KiB x 1..3 publishes, healthy next to stalled/broken, seeded stall/resume; every wire predicted.",
+        note=LEAN_NOTE + "asynchronous-codec 0.7 FramedWrite2 (hwm 131072) modelled; memory observed via the flush after the stall",
+        technique="Lean 4 proof (sink invariants) + back-pressure script correspondence",
+    ),
+    "C13": dict(
+        engine="world",
+        text="Lean 4: for ALL histories of subscribe/unsubscribe/atomic join, every peer's wire folded with the publisher's semantics (C11) equals the socket's set (invariant by induction); failure isolation (each peer's update is independent); the SPLIT join is modelled too and the full property is proved FALSE on a concrete history (C13_race_witness) with the partial theorem excluding exactly that window — a recorded known finding (D10). Tie: real SUB with scripted publishers, all histories to length 4/5 x join at every position, failing peer first, failing join, the split join reached deterministically by stalling the new pipe; python oracle folds every peer's wire.",
+        note=LEAN_NOTE + "HashSet/HashMap iteration orders abstracted (compared as multisets / at quiescent points)",
+        technique="Lean 4 proof (invariant over histories; negation witness for the join race) + exhaustive history x join-point correspondence",
+    ),
     "C19": dict(
         engine="endpoint",
         text="Lean 4 theorems over the endpoint parser model (the two regexes' semantics spelled out over List Char): parse s = ok e <-> the declarative grammar of the property (strict, both directions), parse (display e) = ok e for every parsed e (round trip, IPv6 bracketed), the only slicing operation is in range and on char boundaries (total), IP literals become addresses. std::net enters through an explicit structure of laws (hypotheses of the round-trip theorem). Tie: real str::parse::<Endpoint>() + Display + re-parse vs the model, EXHAUSTIVELY over a 17-character alphabet (incl. newline, non-ASCII digit, upper case) to length 4/5 after 5 prefixes, grammar-based and mutated endpoints; the Lean models of std::net parse/print are compared with the real std on sampled addresses and near-valid IPv6/IPv4 texts.",
@@ -104,7 +122,7 @@ def main():
             {"name": "tables", "path": "harness/src/tables.rs -> lean/ZmqVerif/Gen/Tables.lean", "serves_properties": ["C01", "C03", "C04"], "kind_free_text": "finite tables regenerated from the real code's behaviour on every run; theorems re-proved over them by decide"},
             {"name": "codec", "path": "harness/src/codec.rs + lean/Driver/Codec.lean", "serves_properties": ["C01", "C02", "C03"], "kind_free_text": "real ZmqCodec vs the Lean decoder/encoder model over a line protocol; hostile mode with counting allocator and small-stack thread"},
             {"name": "fq", "path": "harness/src/fq.rs + lean/Driver/Fq.lean", "serves_properties": ["C05", "C06"], "kind_free_text": "real FairQueue (via __verif::FairQueueProbe) over scripted streams with window actions and a counting receiver waker vs the Lean micro-step model, exact schedule replay"},
-            {"name": "world", "path": "harness/src/world.rs + harness/src/pipe.rs + lean/Driver/World.lean (Model/World.lean)", "serves_properties": ["C07", "C08", "C14"], "kind_free_text": "any number of REAL sockets + scripted in-memory pipes attached through the real handshake + user futures polled one poll at a time; the Lean World model replays the same schedule and must predict every line"},
+            {"name": "world", "path": "harness/src/world.rs + harness/src/pipe.rs + lean/Driver/World.lean (Model/World.lean)", "serves_properties": ["C07", "C08", "C11", "C12", "C13", "C14"], "kind_free_text": "any number of REAL sockets + scripted in-memory pipes attached through the real handshake + user futures polled one poll at a time; the Lean World model replays the same schedule and must predict every line"},
             {"name": "endpoint", "path": "harness/src/endpoint.rs + lean/Driver/Endpoint.lean", "serves_properties": ["C19"], "kind_free_text": "real Endpoint::from_str/Display and std::net vs the Lean endpoint and IP text models"},
             {"name": "spec", "path": "lean/Driver/Spec.lean", "serves_properties": ["C01"], "kind_free_text": "Lean Spec predicates (strict RFC-23 grammar) evaluated on bytes the implementation produced"},
         ],
